@@ -540,6 +540,16 @@ func (c *Ctx) canonIdx(v ssa.Value, idx *ssa.Phi, sP ssa.Value, decode *ssa.Call
 			return rec(x.X, fr, d+1) + "[" + lo + ":" + hi + "]"
 		case *ssa.Convert:
 			return rec(x.X, fr, d+1)
+		case *ssa.Phi:
+			// a join variable (`width := 1; if … { width = size }`): its value on this path
+			if k, ok := s.Env[envKey{x, -1, ""}]; ok {
+				return k.ExactString()
+			}
+			if sel, ok := s.Env[envKey{x, -2, ""}]; ok {
+				if i, exact := constant.Int64Val(sel); exact && int(i) < len(x.Edges) {
+					return rec(x.Edges[i], fr, d+1)
+				}
+			}
 		case *ssa.Call:
 			if f := x.Common().StaticCallee(); f != nil {
 				var as []string
@@ -575,7 +585,12 @@ func (c *Ctx) checkEscaperUse(r *Report, ro *Roles, mainF *ssa.Function) {
 			var raw []string
 			esc := 0
 			deleg := 0
-			if refs := param.Referrers(); refs != nil {
+			var follow func(p *ssa.Parameter, d int)
+			follow = func(p *ssa.Parameter, d int) {
+				refs := p.Referrers()
+				if refs == nil {
+					return
+				}
 				for _, u := range *refs {
 					ci, ok := u.(ssa.CallInstruction)
 					if !ok {
@@ -584,16 +599,27 @@ func (c *Ctx) checkEscaperUse(r *Report, ro *Roles, mainF *ssa.Function) {
 						}
 						continue
 					}
+					sc := ci.Common().StaticCallee()
 					switch {
-					case ci.Common().StaticCallee() == mainF:
+					case sc == mainF:
 						esc++
-					case ci.Common().StaticCallee() != nil && c.inModule(ci.Common().StaticCallee()) && ci.Common().StaticCallee().Name() == mname:
+					case sc != nil && c.inModule(sc) && sc.Name() == mname:
 						deleg++ // same-named method of the embedded JSON encoder
+					case sc != nil && c.inModule(sc) && len(sc.Blocks) > 0 && sc.Object() != nil && !sc.Object().Exported() && d < 3 && !ci.Common().IsInvoke():
+						// an unexported helper (code extracted from the method): the text must reach only the
+						// escaper inside it, too
+						r.SawFunc(sc)
+						for i, a := range ci.Common().Args {
+							if a == ssa.Value(p) && i < len(sc.Params) {
+								follow(sc.Params[i], d+1)
+							}
+						}
 					default:
 						raw = append(raw, fmt.Sprintf("passed to %s at %s", calleeName(ci), c.instrPos(u)))
 					}
 				}
 			}
+			follow(param, 0)
 			n++
 			if len(raw) > 0 {
 				r.Fail(key, c.pos(m.Pos()), "key/string parameter bypasses the escaper: %s", strings.Join(raw, "; "))
